@@ -12,6 +12,7 @@ pub ghost struct Inode {
     pub mtime: int,          // ns since epoch, as stored (already truncated to the fs granularity)
     pub atime: int,
     pub synced: bool,        // contents flushed to stable storage since the last write
+    pub flush_failed: bool,  // an fsync on this file has failed: its contents may be lost even if a later fsync "succeeds" (sticky)
 }
 
 pub ghost struct World {
@@ -40,6 +41,7 @@ pub ghost struct World {
     pub maintained: nat,               // number of completed prune runs (for C10 ordering)
     pub published: nat,                // number of publish steps (rename/link onto an entry)
     pub listed: nat,                   // directory items returned to us by readdir so far
+    pub pub_listed: nat,               // value of `listed` at our last successful publish step (C10: no scan after the insertion)
 }
 
 pub open spec fn ns_per_sec() -> int { 1_000_000_000 }
@@ -152,6 +154,18 @@ pub proof fn lemma_valid_key(n: Seq<u8>)
 pub open spec fn temp_name() -> Seq<u8> {
     // ".kismet_temp"
     seq![0x2eu8, 0x6b, 0x69, 0x73, 0x6d, 0x65, 0x74, 0x5f, 0x74, 0x65, 0x6d, 0x70]
+}
+
+/// The bit-vector facts that the stand-in `PermissionsExt::mode` states about the number it returns.
+pub proof fn lemma_masks_clear_write_bits(r: u32)
+    ensures
+        (r & !0o222u32) & 0o222 == 0,
+        (r & 0o555u32) & 0o222 == 0,
+        (r & 0o444u32) & 0o222 == 0,
+{
+    assert((r & !0o222u32) & 0o222 == 0) by (bit_vector);
+    assert((r & 0o555u32) & 0o222 == 0) by (bit_vector);
+    assert((r & 0o444u32) & 0o222 == 0) by (bit_vector);
 }
 
 /// A prefix of `dir/name` is a prefix of `dir`, or is `dir/name` itself.
@@ -347,6 +361,7 @@ impl World {
         &&& self.files.contains_key(value) ==> {
             &&& self.supplied.contains((name, self.inode_at(value).content))
             &&& (need_sync ==> self.inode_at(value).synced)
+            &&& !self.inode_at(value).flush_failed
             &&& forall|q: PathV| #[trigger] self.files.contains_key(q) && self.files[q] == self.files[value] ==> !self.in_cache_namespace(q)
         }
     }
@@ -357,7 +372,7 @@ impl World {
         &&& self.files.contains_key(from) ==> {
             &&& !self.inode_at(from).writable
             &&& self.inode_at(from).atime < self.inode_at(from).mtime
-            &&& (self.must_sync ==> self.inode_at(from).synced)
+            &&& (self.must_sync ==> self.inode_at(from).synced && !self.inode_at(from).flush_failed)
             &&& self.supplied.contains((base_name(to), self.inode_at(from).content))
         }
     }
@@ -403,6 +418,7 @@ impl World {
         &&& self.published >= old.published
         &&& self.maintained >= old.maintained
         &&& self.listed >= old.listed
+        &&& (self.pub_listed == old.pub_listed || self.published > old.published)
     }
 
     /// Only the inode `ino` may differ, and only as described by `f`.
